@@ -12,7 +12,7 @@
 """
 import json, os, re, shutil, subprocess, sys, tempfile, time
 
-ENV = dict(os.environ, GOFLAGS="-mod=mod", GOPROXY="off", GOSUMDB="off", GOTOOLCHAIN="local")
+ENV = dict(os.environ, GOFLAGS="-mod=mod", GOPROXY="off", GOSUMDB="off", GOTOOLCHAIN="local", VERIF_EVIDENCE_DIR="/tmp/verif-mutant-evidence")
 VERIF = "/verif"
 
 
